@@ -605,6 +605,63 @@ func checkC12(e *Engine, r *Report) {
 				return false, false
 			})
 	}
+	// TA: the class travels from the request into the grant unchanged, and nothing rewrites it afterwards — applyGrant and
+	// the update loops recognise a preserved grant by `MemoryType() == memoryPreserve` / `CPUType() == cpuPreserve`
+	{
+		fMemT := e.Field(pkgTA, "grant", "memType")
+		fCpuT := e.Field(pkgTA, "grant", "cpuType")
+		setMT := e.Fn(pkgTA, "grant.SetMemoryType")
+		alloc := e.Fn(pkgTA, "supply.Allocate")
+		G := "(*" + short(pkgTA) + ".grant)."
+		taFns := e.funcsInPkg(pkgTA)
+		if fMemT != nil && fCpuT != nil && setMT != nil && alloc != nil {
+			r.WhoMayWrite("R3", fMemT, "grant.memType", set(G+"SetMemoryType", short(pkgTA)+".newGrant", G+"Clone", "(*"+short(pkgTA)+".cachedGrant).ToGrant"), taFns)
+			r.WhoMayWrite("R3", fCpuT, "grant.cpuType", set(short(pkgTA)+".newGrant", G+"Clone", "(*"+short(pkgTA)+".cachedGrant).ToGrant"), taFns)
+			reqMT := e.objs(pkgTA, "Request.MemoryType", "request.MemoryType")
+			nSet := 0
+			for _, cs := range e.Callers(setMT) {
+				nSet++
+				a := callArgs(cs.Call)
+				okSrc := false
+				if c2, ok := a[len(a)-1].(*ssa.Call); ok && isCallOfObj(c2, reqMT) {
+					okSrc = true // the request's own class
+				}
+				if f, _ := loadedField(a[len(a)-1]); f != nil && f.Name() == "MemType" {
+					okSrc = true // restored from the persisted grant
+				}
+				r.Check("R3:grant-memtype-source@"+FnName(TopParent(cs.Fn)), "R6 annotation source", "a grant's memory class is set only from the request's class (or restored from the persisted grant); nothing derives it from where the memory ended up", e.InstrPos(cs.Call), cs.Fn,
+					okSrc && (TopParent(cs.Fn) == alloc || strings.HasSuffix(FnName(TopParent(cs.Fn)), "ToGrant")), "", true)
+			}
+			// via the interface as well
+			for _, fn := range taFns {
+				for _, c2 := range allCallsOfObj(fn, e.objs(pkgTA, "Grant.SetMemoryType")) {
+					nSet++
+					a := callArgs(c2)
+					okSrc := false
+					if c3, ok := a[len(a)-1].(*ssa.Call); ok && isCallOfObj(c3, reqMT) {
+						okSrc = true
+					}
+					if f, _ := loadedField(a[len(a)-1]); f != nil && f.Name() == "MemType" {
+						okSrc = true
+					}
+					r.Check("R3:grant-memtype-source@"+FnName(TopParent(fn)), "R6 annotation source", "a grant's memory class is set only from the request's class (or restored from the persisted grant); nothing derives it from where the memory ended up", e.InstrPos(c2), fn,
+						okSrc && (TopParent(fn) == alloc || strings.HasSuffix(FnName(TopParent(fn)), "ToGrant")), "", true)
+				}
+			}
+			r.MinInstances("setters of the grant's memory class", nSet, 1)
+			// Allocate hands the request's class to every grant it returns
+			r.MustPass("R1:grant-carries-request-memtype", "R6 annotation source", "every grant supply.Allocate returns carries the request's memory class", alloc, nil, e.maySucceed,
+				func(in ssa.Instruction) bool {
+					ci, ok := in.(ssa.CallInstruction)
+					if !ok || callObj(ci.Common()) == nil || callObj(ci.Common()).Name() != "SetMemoryType" {
+						return false
+					}
+					a := callArgs(ci)
+					c3, ok := a[len(a)-1].(*ssa.Call)
+					return ok && isCallOfObj(c3, reqMT)
+				}, nil)
+		}
+	}
 	_ = strings.Join
 }
 
